@@ -102,7 +102,9 @@ def binding_menu(out, expr, layouts, loop_ranks, quick):
         cand = [(lay[-1], ["coord", "payload"])] + ([(lay[0], ["payload"])] if len(lay) > 1 and not quick else [])
         for rank, types in cand:
             # evict-on names a loop that encloses the loaded rank (or root)
-            pos = loop_ranks.index(rank) if rank in loop_ranks else len(loop_ranks)
+            # (a rank that is looked up by coordinate inside the innermost loop is loaded there: that loop cannot be the
+            # evict-on loop either)
+            pos = loop_ranks.index(rank) if rank in loop_ranks else len(loop_ranks) - 1
             evicts = ["root"] + [r for r in loop_ranks[:pos]]
             for ev in evicts[: (3 if quick else None)]:
                 for style in ("lazy", "eager"):
@@ -149,7 +151,7 @@ def binding_menu(out, expr, layouts, loop_ranks, quick):
             continue
         fn = format_name(layouts, out, t)
         rank = lay[-1]
-        pos = loop_ranks.index(rank) if rank in loop_ranks else len(loop_ranks)
+        pos = loop_ranks.index(rank) if rank in loop_ranks else len(loop_ranks) - 1
         evs = loop_ranks[:pos][:1] or ["root"]
         for s1, s2 in (("lazy", "eager"), ("eager", "lazy")):
             t1 = ["coord", "payload"] if s1 == "lazy" else ["coord"]
